@@ -294,6 +294,11 @@ static int32 pkcs12pbe(psPool_t *pool, unsigned char *password, uint32 passLen,
     int32 i, j, copy, count, cpyLen, binsize, plen;
 
     *out = NULL;
+    if (saltLen < 1)
+    {
+        /* An empty salt would never fill the 64-byte block below. */
+        return PS_ARG_FAIL;
+    }
     Memset(diversifier, id, 64);
 
     for (i = 0; i < 64; )
